@@ -19,29 +19,48 @@ THEOREMS = [
     dict(name="Snow.C06.liquid_convex", clause="liquid step is a convex combination of the vial, its neighbours, the "
          "surroundings and the shelf (inside the stable range)", strength="full"),
     dict(name="Snow.C06.jump_on_curve", clause="after nucleation 0 < sigma < 1, on the curve, below T_eq_l, not below "
-         "T_nuc (both formulations; supercooling <= gamma)", strength="full"),
+         "T_nuc (both formulations; hypothesis: supercooling <= gamma = (1-w_s)·lambda/c_p, part of Stable)",
+         strength="full"),
     dict(name="Snow.C06.solid_step_inv", clause="solidifying step keeps 0 < sigma < 1, the curve, and the lower bound "
-         "(conditional on the side condition for a warmed vial)", strength="full"),
-    dict(name="Snow.C06.vial_inv", clause="one vial, one step: admissibility and bounds preserved", strength="full"),
+         "— CONDITIONAL on the side condition q·dt <= sigma·m·lambda(1-w_s) for a warmed vial",
+         strength="conditional-on-monitored-side-condition"),
+    dict(name="Snow.C06.vial_inv", clause="one vial, one step: admissibility and bounds preserved — CONDITIONAL on the "
+         "side condition for that vial", strength="conditional-on-monitored-side-condition"),
     dict(name="Snow.C06.step_inv", clause="one step of the batch: all vials admissible, no vial colder than the shelf "
-         "temperature just applied nor warmer than hi", strength="full"),
-    dict(name="Snow.C06.run_admissible_partial", clause="all clauses of C06 for every recorded column of a run — "
+         "temperature just applied nor warmer than hi — CONDITIONAL on SideCond for the state",
+         strength="conditional-on-monitored-side-condition"),
+    dict(name="Snow.C06.run_admissible_partial", clause="admissibility of every vial in every recorded column of a run — "
          "ASSUMING at every step the side condition q·dt <= sigma·m·lambda(1-w_s) for warmed ice-containing vials "
-         "(monitored here); 'finite' is vacuous over the reals and monitored on the floats", strength="partial"),
+         "(monitored here)", strength="partial"),
+    dict(name="Snow.C06.run_bounds_partial", clause="the clauses of C06 literally, for every recorded column: sigma in "
+         "[0,1); ice => on the curve and T < T_eq_l; T <= hi >= max(T_k_0, T_sh(0), T_eq_l); T >= the COLDEST shelf "
+         "temperature applied so far (= T_shelf[j-1], the program never rises, C05) — same side condition",
+         strength="partial"),
     dict(name="Snow.C06.ice_iff_after_nucleation", clause="per step: recorded statistics kept by ice-containing vials, "
          "set exactly when a liquid vial nucleates", strength="full"),
     dict(name="Snow.C06.ice_iff_recorded", clause="run level: in column j a vial contains ice iff the nucleation time in "
-         "the final statistics exists and is <= t[j] (given admissibility of all columns)", strength="full"),
+         "the final statistics exists and is <= t[j] — hypothesis: admissibility of all columns (TrajAdm)",
+         strength="conditional-on-admissibility-of-all-columns"),
     dict(name="Snow.C06.run_ice_iff_recorded", clause="the same under the hypotheses of run_admissible_partial (inherits "
          "its side condition)", strength="partial"),
     dict(name="Snow.C06.shelf_coeff_nonneg", clause="the shelf coefficients handed to the step (clamped draws) are "
-         ">= 0 for every draw of the normals (premise of convexity)", strength="full"),
+         ">= 0 for every draw of the normals, GIVEN s0 >= 0 (premise of convexity)", strength="full"),
     dict(name="Snow.C06.ext_nonneg_shape", clause="for every declared shape and both arrangements every vial has a "
          "non-negative number of external faces (non-negative coupling to the surroundings)", strength="full"),
-    dict(name="Snow.C06.side_condition_needed", clause="the side condition is not derivable: a warmed vial with tiny "
-         "sigma leaves sigma > 0 in exact arithmetic", strength="boundary-witness"),
-    dict(name="Snow.C06.nonvacuous", clause="the stable range is inhabited (default solution, K=20, dt=2)",
-         strength="nonvacuity"),
+    dict(name="Snow.C06.side_condition_needed", clause="the side condition is not derivable from Stable: a concrete "
+         "configuration inside Stable (two-vial batch), a vial on the curve with sigma = 1e-6 and an admissible heat "
+         "flow q = 0.1 W for which the side condition fails and solidSigma gives sigma' < 0", strength="boundary-witness"),
+    dict(name="Snow.C06.sideCond_witness", clause="a non-trivial state satisfying the side condition (half-frozen vial "
+         "warmed by a liquid neighbour and the shelf)", strength="nonvacuity"),
+    dict(name="Snow.C06.ex_stable", clause="the stable range is inhabited by a batch with real neighbours (two vials in "
+         "contact, default solution, K=20, dt=2, shelf in [-50, 20])", strength="nonvacuity"),
+    dict(name="Snow.C06.nonvacuous", clause="ALL hypotheses of run_admissible_partial / run_bounds_partial hold together "
+         "for a concrete input (C05.WF program with a hold, Stable, start <= T_k_0 <= hi, SideCond along the run's "
+         "trajectory — t_tot = 0, initial column only)", strength="nonvacuity"),
+    dict(name="monitored:finite", clause="all reported values are finite (vacuous over the reals; checked on the floats "
+         "of every real run)", strength="monitored"),
+    dict(name="monitored:side_condition", clause="the side condition of the partial theorems holds on every real "
+         "(vial, step) (counted in the evidence)", strength="monitored"),
 ]
 TRUSTED = [
     "Lean 4.33 kernel; axioms per theorem listed under coverage.axioms",
